@@ -159,6 +159,8 @@ pub fn run(prop: &str, seed: u64, tier_thorough: bool, trace_path: Option<&str>,
                     ("marker", lzma_rs::compress::UnpackedSize::WriteToHeader(None), Opt::ReadFromHeader),
                     ("size", lzma_rs::compress::UnpackedSize::WriteToHeader(Some(n as u64)), Opt::ReadFromHeader),
                     ("skip", lzma_rs::compress::UnpackedSize::SkipWritingToHeader, Opt::UseProvided { n: Some(n as u64) }),
+                    // the plain entry points lzma_compress / lzma_decompress (default options on both sides)
+                    ("default", lzma_rs::compress::UnpackedSize::WriteToHeader(None), Opt::ReadFromHeader),
                 ]
                 .iter()
                 .enumerate()
@@ -168,7 +170,12 @@ pub fn run(prop: &str, seed: u64, tier_thorough: bool, trace_path: Option<&str>,
                     }
                     let mut out = vec![];
                     let mut src = LogSrc::new(&input, frags.clone(), false);
-                    let r = catch(|| lzma_rs::lzma_compress_with_options(&mut src, &mut out, &lzma_rs::compress::Options { unpacked_size: *us }));
+                    let plain = *oname == "default";
+                    let r = if plain {
+                        catch(|| lzma_rs::lzma_compress(&mut src, &mut out))
+                    } else {
+                        catch(|| lzma_rs::lzma_compress_with_options(&mut src, &mut out, &lzma_rs::compress::Options { unpacked_size: *us }))
+                    };
                     let mut vs: Vec<String> = vec![];
                     match r {
                         Caught::Panic(m) => vs.push(format!("lzma_compress panicked: {}", m)),
@@ -176,7 +183,7 @@ pub fn run(prop: &str, seed: u64, tier_thorough: bool, trace_path: Option<&str>,
                         Caught::Done(Ok(())) => {
                             let hl = if *oname == "skip" { 5 } else { 13 };
                             // 1. this library, matching option
-                            let d1 = api::lzma_bytes(&out, &api::options(*dopt, None, false));
+                            let d1 = if plain { api::lzma_plain(&out) } else { api::lzma_bytes(&out, &api::options(*dopt, None, false)) };
                             if d1.verdict != Verdict::Ok || d1.out != input {
                                 vs.push(format!("lzma_decompress with the matching option does not return the input: {:?} {}", d1.verdict, d1.msg));
                             }
@@ -204,7 +211,7 @@ pub fn run(prop: &str, seed: u64, tier_thorough: bool, trace_path: Option<&str>,
                                     evj["input"] = json!(input);
                                     evj["syms"] = serde_json::to_value(&rr.syms).unwrap();
                                 }
-                                if trace.len() < 4000 {
+                                if trace.len() < 4000 && !plain {
                                     trace.push(evj.to_string());
                                 }
                                 if !litonly {
